@@ -110,6 +110,7 @@ static void scen_read(struct scen *sc, int lto)
 #else
     sc->tzbuf[0] = 'N'; sc->tzbuf[1] = 'M'; sc->tzbuf[2] = 'D';
 #endif
+    M14.named_tz = sc->tzbuf;   /* this very pointer denotes the NAMED zone (content checked/assumed above) */
     sc->Z = M14.off[M14_TZ_NAMED]; sc->tz = sc->tzbuf; sc->zone = M14_TZ_NAMED; sc->utc_path = 0;
   }
 }
@@ -254,9 +255,9 @@ static void check_pty(const struct scen *sc, int arith, vbi_bool ok, time_t b, t
       expect_mk(0, sc->ys, sc->ms, sc->ds + 29, 4, 0, sc->zone);
       V_ASSERT((int64_t) e == M14.mk[0].local - sc->Z, "pty_end_0400_local_day_plus_29");
     }
-#ifndef C14_NO_CROSS_CALL
-    V_ASSERT(b < e, "pty_begin_before_end");
-#endif
+    /* begin < end: directly in the arithmetic path; in the mktime path from the logged fields by h_m14_window_lemmas
+       (end - begin = 29 d + 4 h - second of the day of begin) */
+    if (arith) V_ASSERT(b < e, "pty_begin_before_end");
     V_REACH("pty_ok");
   }
 }
@@ -338,17 +339,13 @@ static void check_window(const struct scen *sc, int cls, int pty_arith, vbi_bool
       dated = 1;
     } else if (ok) {
       /* two conversions in the zone: begin = 00:00 of the PIL day or 20:00 of the day before (day-1 20:00),
-         end = 04:00 of the next day (day+1 04:00).  By linearity of secs_from_civil in mday/hour:
-         end - begin = 28 h / 32 h and begin <= 00:00 + PIL hour:minute < end */
+         end = 04:00 of the next day (day+1 04:00) */
       V_ASSERT(M14.n_mktime == 2, "two_conversions");
       expect_mk(0, Ye, sc->pm0, early ? sc->pd - 1 : sc->pd, early ? 20 : 0, 0, sc->zone);
       expect_mk(1, Ye, sc->pm0, sc->pd + 1, 4, 0, sc->zone);
       V_ASSERT((int64_t) b == M14.mk[0].local - sc->Z, "win_begin_0000_or_2000_previous_day");
       V_ASSERT((int64_t) e == M14.mk[1].local - sc->Z, "win_end_0400_next_day");
-#ifndef C14_NO_CROSS_CALL
-      V_ASSERT(b < e, "win_begin_before_end");
-      V_ASSERT((int64_t) e - (int64_t) b == (early ? 32 : 28) * HOUR, "win_length_28h_or_32h");
-#endif
+      /* begin < end, length 28 h / 32 h, begin <= converted PIL < end: from these logged fields by h_m14_window_lemmas */
       dated = 1;
     } else V_REACH("win_env_failure");
     if (dated && early) V_REACH("win_32h");
@@ -434,16 +431,48 @@ V_HARNESS(h_m14_selfcheck)
   IN_RANGE(h, 0, 23); IN_RANGE(mi, 0, 59); IN_RANGE(s, 0, 59);
   V_ASSERT(m14_is_leap(y) == ((y % 4 == 0 && y % 100 != 0) || y % 400 == 0), "m14_leap_rule");
   V_ASSERT(m14_days_in_month(y, mo) >= 28 && m14_days_in_month(y, mo) <= 31, "m14_month_length");
-  /* successor day */
-  { int64_t a = m14_days_from_civil(y, mo, d), b;
-    if (d < m14_days_in_month(y, mo)) b = m14_days_from_civil(y, mo, d + 1);
-    else if (mo < 11) b = m14_days_from_civil(y, mo + 1, 1);
-    else b = m14_days_from_civil(y + 1, 0, 1);
-    V_ASSERT(b == a + 1, "m14_successor_day"); }
   /* seconds of the day stay inside the day */
   t = m14_hint_civil(y, mo, d, h, mi, s);
   day0 = M14.hint_midnight;
   V_ASSERT(t >= day0 && t < day0 + DAY, "m14_secs_within_its_day");
+  V_END();
+}
+
+/* successor-day step: the day after a canonical date (next day / first of next month / 1 January of next year) is
+ * days_from_civil + 1.  With the anchors this pins the forward function down by induction and makes it strictly
+ * monotone, hence injective, on canonical fields - the lemma behind m14_hint_civil. */
+V_HARNESS(h_m14_successor_day)
+{
+  int y, mo, d; int64_t a, b;
+  V_INIT();
+  y = in_u16(); mo = in_u8(); d = in_u8();
+  IN_RANGE(y, M14_YLO, M14_YHI); IN_RANGE(mo, 0, 11); IN_RANGE(d, 1, m14_days_in_month(y, mo));
+  a = m14_days_from_civil(y, mo, d);
+  if (d < m14_days_in_month(y, mo)) b = m14_days_from_civil(y, mo, d + 1);
+  else if (mo < 11) b = m14_days_from_civil(y, mo + 1, 1);
+  else b = m14_days_from_civil(y + 1, 0, 1);
+  V_ASSERT(b == a + 1, "m14_successor_day");
+  V_END();
+}
+
+/* what the window harnesses leave to the model: differences of conversions within one month (pdc.c passes day-1 20:00,
+ * day+1 04:00, day+29 04:00 to mktime and relies on its normalisation) */
+V_HARNESS(h_m14_window_lemmas)
+{
+  int y, mo, d, h, mi, s; int64_t t0, tp, te, tb, tq;
+  V_INIT();
+  y = in_u16(); mo = in_u8(); d = in_u8(); h = in_u8(); mi = in_u8(); s = in_u8();
+  IN_RANGE(y, M14_YLO, M14_YHI); IN_RANGE(mo, 0, 11); IN_RANGE(d, 1, 31);
+  IN_RANGE(h, 0, 23); IN_RANGE(mi, 0, 59); IN_RANGE(s, 0, 59);
+  t0 = m14_secs_from_civil(y, mo, d, 0, 0, 0);
+  tp = m14_secs_from_civil(y, mo, d, h, mi, 0);
+  te = m14_secs_from_civil(y, mo, d + 1, 4, 0, 0);
+  tb = m14_secs_from_civil(y, mo, d - 1, 20, 0, 0);
+  V_ASSERT(te - t0 == 28 * HOUR && te - tb == 32 * HOUR && tb < t0 && t0 < te, "m14_window_28h_32h");
+  V_ASSERT(t0 <= tp && tp < te && tp - t0 == (int64_t) (h * 3600 + mi * 60), "m14_window_contains_pil_time");
+  tq = m14_secs_from_civil(y, mo, d, h, mi, s);
+  te = m14_secs_from_civil(y, mo, d + 29, 4, 0, 0);
+  V_ASSERT(te - tq == 29 * DAY + 4 * HOUR - (int64_t) (h * 3600 + mi * 60 + s) && tq < te, "m14_pty_window_length");
   V_END();
 }
 
